@@ -1,5 +1,127 @@
-import Smooth.Model.Surface
+/-
+C15 — Operator syntax builds exactly the named constructors.
+
+`opNeg/opAdd/opSub/opMul/opDiv/opPow` (Model/Surface.lean) are the dunders `__neg__`, `__add__`,
+`__sub__`, `__mul__`, `__truediv__`, `__pow__`; the right operand is an arbitrary Python value
+(`PyVal`: an expression, a number — `int` or `float`, not distinguished —, a string, anything else).
+The results are stated as *equalities of trees* with the freshly built node (`mkAdd [a, b]` is
+`Add(a, b)` with both flags `False`) whose children are the operands themselves, flags included:
+nothing is simplified, flattened or reordered.  `v.NotExpr` says the value is not an expression.
+Over the reals "an integer k ≥ 1, also when written as an integral float" is: the number equals
+`(k : ℝ)` for a natural number `k ≥ 1`.
+-/
+import Smooth.Proofs.Construct
+
 namespace Smooth
-/-- placeholder while the property file is being written -/
-theorem C15_placeholder : (1 : Nat) = 1 := rfl
+open Expr
+
+section generic
+variable {α : Type}
+
+/-- **C15.** `-a` is `Negation(a)` -/
+theorem neg_builds (a : Expr α) : opNeg a = mkNeg a := opNeg_eq a
+
+/-- `a + b` is the binary `Add(a, b)` -/
+theorem add_builds (a b : Expr α) : opAdd a (.expr b) = .ok (mkAdd [a, b]) := opAdd_expr a b
+
+/-- `a - b` is `Minus(a, b)` -/
+theorem sub_builds (a b : Expr α) : opSub a (.expr b) = .ok (mkMinus a b) := opSub_expr a b
+
+/-- `a * b` is the binary `Multiply(a, b)` -/
+theorem mul_builds (a b : Expr α) : opMul a (.expr b) = .ok (mkMul [a, b]) := opMul_expr a b
+
+/-- `a / b` is `Divide(a, b)` -/
+theorem div_builds (a b : Expr α) : opDiv a (.expr b) = .ok (mkDiv a b) := opDiv_expr a b
+
+/-- `a ** b` is `Power(a, b)` when `b` is an expression, for every number instance -/
+theorem pow_builds (N : Num α) (a b : Expr α) : opPow N a (.expr b) = .ok (mkPow a b) :=
+  opPow_expr N a b
+
+/-- a non-expression right operand of `+ - * /` is rejected with the generic `Exception` -/
+theorem arith_rejects_nonexpr (a : Expr α) {v : PyVal α} (hv : v.NotExpr) :
+    opAdd a v = .error .usage ∧ opSub a v = .error .usage ∧ opMul a v = .error .usage ∧
+      opDiv a v = .error .usage :=
+  ⟨opAdd_notExpr a hv, opSub_notExpr a hv, opMul_notExpr a hv, opDiv_notExpr a hv⟩
+
+/-- in particular numbers, strings and foreign objects -/
+theorem arith_rejects_num_str_other (a : Expr α) (x : α) (s : String) :
+    opAdd a (.num x) = .error .usage ∧ opAdd a (.str s) = .error .usage ∧
+      opAdd a .other = .error .usage :=
+  ⟨opAdd_notExpr a (PyVal.notExpr_num x), opAdd_notExpr a (PyVal.notExpr_str s),
+    opAdd_notExpr a PyVal.notExpr_other⟩
+
+/-- an exponent that is neither an expression nor a number is rejected -/
+theorem pow_rejects_str_other (N : Num α) (a : Expr α) (s : String) :
+    opPow N a (.str s) = .error .usage ∧ opPow N a .other = .error .usage :=
+  ⟨opPow_str N a s, opPow_other N a⟩
+
+end generic
+
+/-- **C15.** `a ** v` for a number `v` succeeds exactly when `v` is an integer `k ≥ 1` (as `int` or
+as an integral `float`), and then it is `NthPower(a, k)` with that integer stored. -/
+theorem pow_num_builds_iff (a : Expr ℝ) (v : ℝ) (e : Expr ℝ) :
+    opPow realNum a (.num v) = .ok e ↔ ∃ k : ℕ, 1 ≤ k ∧ v = (k : ℝ) ∧ e = mkNPow a k :=
+  opPow_num_ok_iff a v e
+
+/-- `a ** k` is `NthPower(a, k)` -/
+theorem pow_nat_builds (a : Expr ℝ) {k : ℕ} (hk : 1 ≤ k) :
+    opPow realNum a (.num (k : ℝ)) = .ok (mkNPow a k) := opPow_natCast a hk
+
+/-- a numeric exponent that is not a positive integer never yields an expression -/
+theorem pow_num_rejects (a : Expr ℝ) {v : ℝ} (hv : ¬ IsPosInt v) (e : Expr ℝ) :
+    opPow realNum a (.num v) ≠ .ok e := opPow_num_reject a hv e
+
+/-- precisely: a non-integral number is the generic `Exception` (raised by `__pow__`), an integer
+`≤ 0` the `DomainError` of `NthPower` -/
+theorem pow_num_errors (a : Expr ℝ) :
+    (∀ x : ℝ, (¬ ∃ j : ℤ, (j : ℝ) = x) → opPow realNum a (.num x) = .error .usage) ∧
+    (∀ j : ℤ, j ≤ 0 → opPow realNum a (.num (j : ℝ)) = .error .domain) :=
+  ⟨fun _ hx => opPow_non_integral a hx, fun _ hj => opPow_nonpos_int a hj⟩
+
+/-- every result of an operator on well-formed operands is well formed -/
+theorem op_results_WF {a : Expr ℝ} (ha : WF a) :
+    WF (opNeg a) ∧
+    (∀ (v : PyVal ℝ) (e : Expr ℝ), v.WFArg →
+      (opAdd a v = .ok e ∨ opSub a v = .ok e ∨ opMul a v = .ok e ∨ opDiv a v = .ok e) → WF e) ∧
+    (∀ (v : PyVal ℝ) (e : Expr ℝ), v.WFArg → opPow realNum a v = .ok e → WF e) :=
+  ⟨opNeg_WF ha, fun _ _ hv h => opBinary_WF ha hv h, fun _ _ hv h => opPow_WF ha hv h⟩
+
+/-! ### non-vacuity -/
+
+/-- nothing is simplified or reordered: `x + 0`, `0 + x` and `x * 1` stay as written, and operands
+keep their own flags -/
+example :
+    opAdd (mkVar "x") (.expr (mkConst (0 : ℝ))) = .ok (mkAdd [mkVar "x", mkConst 0]) ∧
+    opAdd (mkConst (0 : ℝ)) (.expr (mkVar "x")) = .ok (mkAdd [mkConst 0, mkVar "x"]) ∧
+    opMul (Expr.var { red := true } "x") (.expr (mkConst (1 : ℝ))) =
+      .ok (mkMul [Expr.var { red := true } "x", mkConst 1]) :=
+  ⟨add_builds _ _, add_builds _ _, mul_builds _ _⟩
+
+/-- `x ** 3` and `x ** 3.0` are `NthPower(x, 3)` -/
+example : opPow realNum (mkVar "x") (.num 3) = .ok (mkNPow (mkVar "x") 3) := by
+  have := pow_nat_builds (mkVar "x") (k := 3) (by norm_num)
+  simpa using this
+
+/-- `3` is a positive integer, `1/2`, `0` and `-2` are not: all hypotheses above are satisfiable -/
+example : IsPosInt 3 := ⟨3, by norm_num, by norm_num⟩
+
+example : ¬ ∃ j : ℤ, (j : ℝ) = 1 / 2 := by
+  rintro ⟨j, hj⟩
+  have h2 : ((2 * j : ℤ) : ℝ) = ((1 : ℤ) : ℝ) := by push_cast; rw [hj]; norm_num
+  have : 2 * j = 1 := by exact_mod_cast h2
+  omega
+
+example : opPow realNum (mkVar "x") (.num 0) = .error .domain ∧
+    opPow realNum (mkVar "x") (.num (-2)) = .error .domain := by
+  have h0 := (pow_num_errors (mkVar "x")).2 0 (by norm_num)
+  have h2 := (pow_num_errors (mkVar "x")).2 (-2) (by norm_num)
+  constructor
+  · simpa using h0
+  · simpa using h2
+
+example : ¬ IsPosInt 0 ∧ ¬ IsPosInt (-2) := by
+  constructor
+  · have := not_isPosInt_of_nonpos (j := 0) (by norm_num); simpa using this
+  · have := not_isPosInt_of_nonpos (j := -2) (by norm_num); simpa using this
+
 end Smooth
